@@ -24,10 +24,13 @@
        Proof. family_sim_tac F_dispatch. Qed.      (likewise family_upd_tac, family_keep_tac)
    An executor that loops over keys (map/fold/Fixpoint reading db_get inside) needs its own lemma
    by induction, as MGET/MSET/DEL/EXISTS/BLPOP have here; then prove the dispatch lemma as
-   [sim_lists]/[upd_lists]/[keep_lists] do (generic tactic first, named lemmas as fallback). *)
+   [sim_lists]/[upd_lists]/[keep_lists] do (generic tactic first, named lemmas as fallback).  A
+   recursive *reader* only needs "equivalent databases give the same result" plus one clause in the
+   hook [eqv_rw_extra] (see [eqv_operands] for Sets.operands); the generic tactics then apply.
+   Families covered: strings, lists, hashes, sets, sorted sets, streams. *)
 Require Import Base.Bytes Base.GoInt Base.Reply Mem.Types Mem.Inv Glob.GlobModel.
 (* families whose files reuse names of Strings.v (ZSets: o_nx, o_xx) are imported before it *)
-Require Import Mem.HashDec Mem.Hashes Mem.Avl Mem.ZSets.
+Require Import Mem.HashDec Mem.Hashes Mem.Avl Mem.ZSets Mem.Streams Mem.Sets.
 Require Import Mem.Lists Mem.Strings Mem.Exec.
 From Coq Require Import Permutation.
 Local Open Scope Z_scope.
@@ -191,7 +194,10 @@ Ltac sim_leaf :=
   repeat first [ assumption | apply eqv_set | apply eqv_del | apply eqv_set_ttl | apply eqv_del_ttl
                | apply eqv_put_list ].
 
-Ltac sim_auto := repeat (eqv_rw; break_match); sim_leaf.
+(* hook: a family with a recursive reader of the database (e.g. Sets.operands) proves that it
+   respects [db_eqv] and extends this tactic with [::=] *)
+Ltac eqv_rw_extra := idtac.
+Ltac sim_auto := repeat (eqv_rw; eqv_rw_extra; break_match); sim_leaf.
 
 (* ---- generic proofs for a family whose executors reach the database only through
         db_get/db_ttl/db_set/db_del/db_set_ttl/db_del_ttl, possibly via accessor definitions
@@ -200,6 +206,8 @@ Create HintDb kv_access.
 #[export] Hint Unfold get_list put_list : kv_access.
 #[export] Hint Unfold get_hash hash_or_empty put_hash hfloat_store hfloat_follow : kv_access.
 #[export] Hint Unfold get_zset put_zset : kv_access.
+#[export] Hint Unfold get_set put_set store_set : kv_access.
+#[export] Hint Unfold get_stream xadd_apply : kv_access.
 
 Ltac head_of t := lazymatch t with ?f _ => head_of f | _ => t end.
 Ltac unfold_exec t :=
@@ -652,6 +660,22 @@ Proof. family_sim_tac hashes_dispatch. Qed.
 Lemma sim_zsets : family_sim zsets_dispatch.
 Proof. family_sim_tac zsets_dispatch. Qed.
 
+(* sets: the operand list of SUNION/SINTER/SDIFF(STORE) is read by a Fixpoint *)
+Lemma eqv_operands a b ks : db_eqv a b -> operands a ks = operands b ks.
+Proof.
+  intros H. induction ks as [|k r IH]; [reflexivity|]. cbn. unfold get_set.
+  rewrite (proj1 (H k)), IH. reflexivity.
+Qed.
+Ltac eqv_rw_extra ::=
+  repeat match goal with
+  | H : db_eqv ?a _ |- context [operands ?a ?ks] => rewrite (eqv_operands _ _ ks H)
+  end.
+
+Lemma sim_sets : family_sim sets_dispatch.
+Proof. family_sim_tac sets_dispatch. Qed.
+Lemma sim_streams : family_sim streams_dispatch.
+Proof. family_sim_tac streams_dispatch. Qed.
+
 (* one [Forall_cons] per family of [Exec.families] *)
 Lemma families_sim : Forall family_sim families.
 Proof.
@@ -659,7 +683,9 @@ Proof.
   apply Forall_cons; [intros a b now nowms n args hint; apply sim_strings|].
   apply Forall_cons; [intros a b now nowms n args hint; apply sim_lists|].
   apply Forall_cons; [apply sim_hashes|].
+  apply Forall_cons; [apply sim_sets|].
   apply Forall_cons; [apply sim_zsets|].
+  apply Forall_cons; [apply sim_streams|].
   apply Forall_nil.
 Qed.
 
@@ -911,9 +937,9 @@ Ltac family_upd_tac disp :=
   intros ? ? ? n ? ? ? ? d' _; unfold disp;
   repeat match goal with
   | |- context [if is n ?c then _ else _] => destruct (is n c)
-  end; intros E; try discriminate; injection E as E;
-  apply (f_equal snd) in E; cbn [snd] in E; subst d';
-  match goal with |- upd _ _ _ (snd ?x) => unfold_exec x end; upd_auto.
+  end; intros E; try discriminate;
+  apply (f_equal (option_map snd)) in E; cbn [option_map] in E; injection E as E; subst d';
+  try match goal with |- upd _ _ _ (snd ?x) => unfold_exec x end; upd_auto.
 
 Lemma upd_strings : family_upd strings_dispatch.
 Proof.
@@ -948,6 +974,10 @@ Lemma upd_hashes : family_upd hashes_dispatch.
 Proof. family_upd_tac hashes_dispatch. Qed.
 Lemma upd_zsets : family_upd zsets_dispatch.
 Proof. family_upd_tac zsets_dispatch. Qed.
+Lemma upd_sets : family_upd sets_dispatch.
+Proof. family_upd_tac sets_dispatch. Qed.
+Lemma upd_streams : family_upd streams_dispatch.
+Proof. family_upd_tac streams_dispatch. Qed.
 
 (* one [Forall_cons] per family of [Exec.families] *)
 Lemma families_upd : Forall family_upd families.
@@ -956,7 +986,9 @@ Proof.
   apply Forall_cons; [apply upd_strings|].
   apply Forall_cons; [apply upd_lists|].
   apply Forall_cons; [apply upd_hashes|].
+  apply Forall_cons; [apply upd_sets|].
   apply Forall_cons; [apply upd_zsets|].
+  apply Forall_cons; [apply upd_streams|].
   apply Forall_nil.
 Qed.
 
@@ -1164,9 +1196,16 @@ Proof.
     + right; reflexivity.
 Qed.
 
+(* two keys written by one command (LMOVE, SMOVE): the first may be deleted when emptied *)
+Lemma keep_set_del d src dst v : src <> dst -> ttl_keep d (db_set (db_del d src) dst v).
+Proof. intros N. apply (keep_lmove d src dst [] v N). Qed.
+Lemma keep_set_set d src dst v1 v2 : ttl_keep d (db_set (db_set d src v1) dst v2).
+Proof. intros k. right. reflexivity. Qed.
+
 Ltac keep_leaf :=
   cbn [snd];
-  first [ apply keep_refl | apply keep_set_same | apply keep_del | apply keep_put_list ].
+  first [ apply keep_refl | apply keep_set_same | apply keep_del | apply keep_put_list
+        | apply keep_set_set | apply keep_set_del; apply bytes_eqb_neq; assumption ].
 Ltac keep_auto := repeat break_match; keep_leaf.
 
 Lemma keep_get d args : ttl_keep d (snd (exec_get d args)).
@@ -1260,7 +1299,8 @@ Qed.
 
 (* the commands that may install, replace or remove a deadline *)
 Definition ttl_changers : list bytes :=
-  [B "set"; B "mset"; B "setex"; B "expire"; B "persist"; B "rename"].
+  [B "set"; B "mset"; B "setex"; B "expire"; B "persist"; B "rename";
+   B "sunionstore"; B "sinterstore"; B "sdiffstore"].
 Definition changes_ttl (n : bytes) : bool := existsb (bytes_eqb n) ttl_changers.
 
 Definition family_keep (f : family) : Prop :=
@@ -1302,14 +1342,18 @@ Ltac family_keep_tac disp :=
   | |- context [if is n ?c then _ else _] =>
     let Q := fresh "Q" in
     destruct (is n c) eqn:Q; [apply bytes_eqb_eq in Q; subst n; try discriminate C|clear Q]
-  end; intros E; try discriminate; injection E as E;
-  apply (f_equal snd) in E; cbn [snd] in E; subst d';
-  match goal with |- ttl_keep _ (snd ?x) => unfold_exec x end; keep_auto.
+  end; intros E; try discriminate;
+  apply (f_equal (option_map snd)) in E; cbn [option_map] in E; injection E as E; subst d';
+  try match goal with |- ttl_keep _ (snd ?x) => unfold_exec x end; keep_auto.
 
 Lemma keep_hashes : family_keep hashes_dispatch.
 Proof. family_keep_tac hashes_dispatch. Qed.
 Lemma keep_zsets : family_keep zsets_dispatch.
 Proof. family_keep_tac zsets_dispatch. Qed.
+Lemma keep_sets : family_keep sets_dispatch.
+Proof. family_keep_tac sets_dispatch. Qed.
+Lemma keep_streams : family_keep streams_dispatch.
+Proof. family_keep_tac streams_dispatch. Qed.
 
 (* one [Forall_cons] per family of [Exec.families] *)
 Lemma families_keep : Forall family_keep families.
@@ -1318,7 +1362,9 @@ Proof.
   apply Forall_cons; [apply keep_strings|].
   apply Forall_cons; [apply keep_lists|].
   apply Forall_cons; [apply keep_hashes|].
+  apply Forall_cons; [apply keep_sets|].
   apply Forall_cons; [apply keep_zsets|].
+  apply Forall_cons; [apply keep_streams|].
   apply Forall_nil.
 Qed.
 
@@ -1800,3 +1846,40 @@ Theorem run_expired_stays_invisible d k t p now : db_wf d -> db_ttl d k = Some t
 Proof.
   intros W E N L Lt. rewrite (run_frame p k now d W N L). eapply view_dead; eassumption.
 Qed.
+
+(* ---- SUNIONSTORE / SINTERSTORE / SDIFFSTORE: the destination is replaced, deadline included ---- *)
+Definition store_name (n : bytes) : bool :=
+  is n (B "sunionstore") || is n (B "sinterstore") || is n (B "sdiffstore").
+
+Lemma store_set_ttl d k s : db_ttl (store_set d k s) k = None.
+Proof.
+  unfold store_set. destruct s; [|rewrite db_ttl_set]; rewrite db_ttl_del, bytes_eqb_refl; reflexivity.
+Qed.
+
+Lemma algebra_store_drops op p c dst ks z :
+  fst (exec_algebra_store op p (c :: dst :: ks)) = RInt z ->
+  db_ttl (snd (exec_algebra_store op p (c :: dst :: ks))) dst = None.
+Proof.
+  unfold exec_algebra_store. destruct ks as [|k1 r]; try discriminate.
+  destruct (operands p (k1 :: r)); try discriminate. intros _. cbn [snd]. apply store_set_ttl.
+Qed.
+
+Theorem exec_store_drops_deadline d now nowms c dst ks hint z : store_name (lower c) = true ->
+  fst (exec d now nowms (c :: dst :: ks) hint) = RInt z ->
+  db_ttl (snd (exec d now nowms (c :: dst :: ks) hint)) dst = None.
+Proof.
+  intros E. unfold store_name in E. rewrite exec_unfold.
+  destruct (is (lower c) (B "sunionstore")) eqn:E1; [apply bytes_eqb_eq in E1; rewrite E1;
+    exact (algebra_store_drops union_all (purge d now) c dst ks z)|].
+  destruct (is (lower c) (B "sinterstore")) eqn:E2; [apply bytes_eqb_eq in E2; rewrite E2;
+    exact (algebra_store_drops inter_all (purge d now) c dst ks z)|].
+  destruct (is (lower c) (B "sdiffstore")) eqn:E3; [apply bytes_eqb_eq in E3; rewrite E3;
+    exact (algebra_store_drops diff_all (purge d now) c dst ks z)|discriminate].
+Qed.
+
+(* ---- a key that a step leaves absent has no deadline left (emptied lists, hashes, sets, sorted
+        sets; DEL; RENAME source; ...) ---- *)
+Theorem exec_absent_no_deadline d now nowms args hint k : db_wf d ->
+  db_get (snd (exec d now nowms args hint)) k = None ->
+  db_ttl (snd (exec d now nowms args hint)) k = None.
+Proof. intros W G. apply wf_ttl_none; [apply exec_wf; exact W|exact G]. Qed.
